@@ -580,6 +580,8 @@ class MatrixGaussianError(GaussianErrorBase):
         if not np.allclose(np.diag(corr_mat), 1.0):
             raise ValueError("Corelation matrix has non-unit entry on diagonal!")
         # TODO: check if corr_mat is symmetric and positive definite (?)
+        if np.any(error_array < 0):
+            raise ValueError("Error values must be >= 0. Received: %s" % error_array)
         if error_array.ndim > 0 and error_array.shape[0] != corr_mat.shape[0]:
             raise ValueError(
                 f"Error array has size {error_array.shape[0]} but " f"correlation matrix has size {corr_mat.shape[0]}, must be the same."
